@@ -280,6 +280,9 @@ def sliderLen (f : Option Str) : Except Err (Option Nat) :=
       let l := F64.max l 0
       .ok (if notEq64 l 0 then some l else none)
 
+/-- the `repeats > 9000` cap of `parse_hit_objects` -/
+def repeatCap : Int := 9000
+
 /-- `max(0, repeats - 1) as usize` with the `i32` subtraction checked -/
 def repeatsOf (reps : Int) : Option Nat :=
   if reps - 1 < -2147483648 then none else some (if reps - 1 < 0 then 0 else reps - 1).toNat
@@ -290,7 +293,7 @@ def parseSlider (curve : List CP) (x y : Int) (sound : Nat) (pointStr repeatStr 
   match parseI32 repeatStr with
   | .error e => (curve, .error (.number e))
   | .ok reps =>
-    if reps > 9000 then (curve, .error .invalidRepeatCount) else
+    if reps > repeatCap then (curve, .error .invalidRepeatCount) else
     match repeatsOf reps with
     | none => (curve, .error .panic)
     | some repeats =>
@@ -519,43 +522,72 @@ deriving Repr, DecidableEq, BEq
 def DiffState.init : DiffState :=
   ⟨0x40A00000, 0x40A00000, 0x40A00000, 0x40A00000, 0x3FF6666666666666, 0x3FF0000000000000, false⟩
 
+def lookupKey {κ : Type} (tbl : List (String × κ)) (k : Str) : Option κ :=
+  (tbl.find? (fun e => e.1.toList == k)).map (·.2)
+
 inductive DKey
   | hp | cs | od | ar | sm | tr
 deriving Repr, DecidableEq, BEq
 
-/-- `DifficultyKey::from_str` (the table is compared with the generated `Gen/DecodeKeys.lean`) -/
-def difficultyKeys : List (String × DKey) :=
-  [("HPDrainRate", .hp), ("CircleSize", .cs), ("OverallDifficulty", .od), ("ApproachRate", .ar),
-   ("SliderMultiplier", .sm), ("SliderTickRate", .tr)]
+/-- one arm of `match key` in `parse_difficulty`: key string, assigned field, `f64::parse(value)?`
+(else `value.parse_num()?` into an `f32`), `approach_rate` follows while `!has_approach_rate`,
+`has_approach_rate = true` is set -/
+structure DArm where
+  key : String
+  field : DKey
+  f64 : Bool
+  arFollows : Bool
+  setsHasAr : Bool
+deriving Repr, DecidableEq
 
-def lookupKey {κ : Type} (tbl : List (String × κ)) (k : Str) : Option κ :=
-  (tbl.find? (fun e => e.1.toList == k)).map (·.2)
+/-- the arms of `parse_difficulty` (compared with the generated `Gen/DecodeKeys.lean`) -/
+def difficultyArms : List DArm :=
+  [⟨"HPDrainRate", .hp, false, false, false⟩, ⟨"CircleSize", .cs, false, false, false⟩,
+   ⟨"OverallDifficulty", .od, false, true, false⟩, ⟨"ApproachRate", .ar, false, false, true⟩,
+   ⟨"SliderMultiplier", .sm, true, false, false⟩, ⟨"SliderTickRate", .tr, true, false, false⟩]
 
-/-- `Beatmap::parse_difficulty` -/
+def DKey.fieldName : DKey → String
+  | .hp => "hp_drain_rate" | .cs => "circle_size" | .od => "overall_difficulty"
+  | .ar => "approach_rate" | .sm => "slider_multiplier" | .tr => "slider_tick_rate"
+
+def DiffState.set (d : DiffState) : DKey → Nat → DiffState
+  | .hp, x => { d with hp := x } | .cs, x => { d with cs := x } | .od, x => { d with od := x }
+  | .ar, x => { d with ar := x } | .sm, x => { d with sm := x } | .tr, x => { d with tr := x }
+
+/-- what one arm does with the parsed value -/
+def DArm.apply (a : DArm) (d : DiffState) (x : Nat) : DiffState :=
+  let d1 := d.set a.field x
+  let d2 := if a.arFollows && !d.hasAr then { d1 with ar := x } else d1
+  if a.setsHasAr then { d2 with hasAr := true } else d2
+
+/-- `Beatmap::parse_difficulty`, driven by the arm table -/
 def parseDifficulty (d : DiffState) (line : Str) : DiffState × Except Err Unit :=
-  let (k, v) := keyValue (trimComment line)
-  match lookupKey difficultyKeys k with
+  match difficultyArms.find? (fun a => a.key.toList == (keyValue (trimComment line)).1) with
   | none => (d, .ok ())
-  | some .hp => match parseF32 v with
-    | .error e => (d, .error (.number e)) | .ok x => ({ d with hp := x }, .ok ())
-  | some .cs => match parseF32 v with
-    | .error e => (d, .error (.number e)) | .ok x => ({ d with cs := x }, .ok ())
-  | some .od => match parseF32 v with
+  | some a =>
+    match (if a.f64 then parseF64 (keyValue (trimComment line)).2
+           else parseF32 (keyValue (trimComment line)).2) with
     | .error e => (d, .error (.number e))
-    | .ok x => ({ d with od := x, ar := if d.hasAr then d.ar else x }, .ok ())
-  | some .ar => match parseF32 v with
-    | .error e => (d, .error (.number e)) | .ok x => ({ d with ar := x, hasAr := true }, .ok ())
-  | some .sm => match parseF64 v with
-    | .error e => (d, .error (.number e)) | .ok x => ({ d with sm := x }, .ok ())
-  | some .tr => match parseF64 v with
-    | .error e => (d, .error (.number e)) | .ok x => ({ d with tr := x }, .ok ())
+    | .ok x => (a.apply d x, .ok ())
 
 inductive GKey
   | stackLeniency | mode
 deriving Repr, DecidableEq, BEq
 
-/-- the two `GeneralKey`s `parse_general` acts on (every other key, known or not, is a no-op) -/
-def generalKeys : List (String × GKey) := [("StackLeniency", .stackLeniency), ("Mode", .mode)]
+/-- one arm of `parse_general`: key, field, `value.parse_num()?` (f32) or `value.parse()?`
+(`GameMode::from_str`) -/
+structure GArm where
+  key : String
+  field : GKey
+  parser : String
+deriving Repr, DecidableEq
+
+/-- the two `GeneralKey`s `parse_general` acts on; every other key, known or not, is a no-op
+(`_ => {}` / the `KeyValue::parse` error path) -/
+def generalArms : List GArm := [⟨"StackLeniency", .stackLeniency, "parse_num"⟩, ⟨"Mode", .mode, "parse"⟩]
+
+def GKey.fieldName : GKey → String
+  | .stackLeniency => "stack_leniency" | .mode => "mode"
 
 /-- `GameMode::from_str` -/
 def modeOfStr (s : Str) : Option Nat :=
@@ -564,12 +596,11 @@ def modeOfStr (s : Str) : Option Nat :=
 
 /-- `Beatmap::parse_general` on `(stack_leniency, mode)` -/
 def parseGeneral (g : Nat × Nat) (line : Str) : (Nat × Nat) × Except Err Unit :=
-  let (k, v) := keyValue (trimComment line)
-  match lookupKey generalKeys k with
+  match (generalArms.find? (fun a => a.key.toList == (keyValue (trimComment line)).1)).map (·.field) with
   | none => (g, .ok ())
-  | some .stackLeniency => match parseF32 v with
+  | some GKey.stackLeniency => match parseF32 (keyValue (trimComment line)).2 with
     | .error e => (g, .error (.number e)) | .ok x => ((x, g.2), .ok ())
-  | some .mode => match modeOfStr v with
+  | some GKey.mode => match modeOfStr (keyValue (trimComment line)).2 with
     | none => (g, .error .mode) | some m => ((g.1, m), .ok ())
 
 /-! ## the section driver -/
@@ -691,6 +722,18 @@ def decodeState (raw : List Str) : BState := decodeLines (readerLines raw)
 def Sec.isNoop : Sec → Bool
   | .editor | .metadata | .colors | .variables | .catchTheBeat | .mania => true
   | _ => false
+
+def Sec.parserName : Sec → String
+  | .general => "parse_general" | .editor => "parse_editor" | .metadata => "parse_metadata"
+  | .difficulty => "parse_difficulty" | .events => "parse_events"
+  | .timingPoints => "parse_timing_points" | .colors => "parse_colors"
+  | .hitObjects => "parse_hit_objects" | .variables => "parse_variables"
+  | .catchTheBeat => "parse_catch_the_beat" | .mania => "parse_mania"
+
+/-- the sections in the order their `parse_*` methods appear in the source -/
+def allSecs : List Sec :=
+  [.general, .editor, .metadata, .difficulty, .events, .timingPoints, .colors, .hitObjects,
+   .variables, .catchTheBeat, .mania]
 
 /-- the decoded `Beatmap` as far as the model goes -/
 structure Decoded where
